@@ -80,11 +80,13 @@ pub struct High {
 
 pub fn slim_state(m: &Module, high: &mut High) -> Json {
     let st = apistate::project_state(m);
-    let mut funcs: Vec<Json> = st.funcs.iter().map(|f| json!({"live": f.sig != "dead", "imported": f.imported, "sig": if f.sig == "dead" { "" } else { f.sig.as_str() }, "refs": []})).collect();
+    let mut funcs: Vec<Json> = st.funcs.iter().map(|f| json!({"live": f.sig != "dead", "imported": f.imported, "sig": if f.sig == "dead" { "" } else { f.sig.as_str() }, "refs": [], "name": ""})).collect();
     for f in m.funcs.iter() {
         if let FunctionKind::Local(lf) = &f.kind {
             funcs[f.id().index()]["refs"] = json!(body_refs(lf));
         }
+        // the debug name the function carries (C13: it stays with the entity it was given to)
+        funcs[f.id().index()]["name"] = json!(f.name.clone().unwrap_or_default());
     }
     let tables: Vec<Json> = st.tables.iter().map(|t| json!({"live": t.ty != "dead", "imported": t.imported, "ty": if t.ty == "dead" { "" } else { t.ty.as_str() }})).collect();
     let memories: Vec<Json> = st.memories.iter().map(|t| json!({"live": t.ty != "dead", "imported": t.imported, "ty": if t.ty == "dead" { "" } else { t.ty.as_str() }})).collect();
@@ -99,7 +101,7 @@ pub fn slim_state(m: &Module, high: &mut High) -> Json {
     let dead = |sp: &str| -> Json {
         let none = json!({"k": "none", "v": "", "r": -1});
         match sp {
-            "funcs" => json!({"live": false, "imported": false, "sig": "", "refs": []}),
+            "funcs" => json!({"live": false, "imported": false, "sig": "", "refs": [], "name": ""}),
             "tables" | "memories" => json!({"live": false, "imported": false, "ty": ""}),
             "globals" => json!({"live": false, "imported": false, "ty": "", "init": none}),
             "elems" => json!({"live": false, "mode": "", "table": -1, "offset": none, "ety": "", "items": []}),
